@@ -175,6 +175,8 @@ structure Stack where
   subTask : Option Nat := none
   subEntries : List (Eventgroup × Addr) := []
   subLog : List (Addr × Nat × List Eventgroup) := []   -- ghost: every (server, TTL, eventgroups) the subscriber handed to send_sd, in order
+  subDup : Bool := false                -- ghost: some subscribe_eventgroup call named a pair that was already requested (outside C14's domain)
+  subLost : Bool := false               -- ghost: the subscriber was last stopped without StopSubscribe messages (connection loss)
   -- ServiceAnnouncer
   started : Bool := false
   instances : List Instance := []
@@ -512,7 +514,7 @@ def sendSubscribe (s : Stack) (ttl : Nat) (dest : Addr) (egs : List Eventgroup) 
   ({ s with subLog := s.subLog ++ [(dest, ttl, egs)] } : Stack).sendSd (egs.map (fun g => g.createSubscribeEntry ttl 0)) (some dest)
 
 def subscribeEventgroup (s : Stack) (g : Eventgroup) (dest : Addr) : Stack :=
-  let s := { s with subEntries := s.subEntries ++ [(g, dest)] }
+  let s := { s with subDup := s.subDup || decide ((g, dest) ∈ s.subEntries), subEntries := s.subEntries ++ [(g, dest)] }
   if s.alive then s.callSoon (.sendStartSubscribe dest [g]) else s
 
 def stopSubscribeEventgroup (s : Stack) (g : Eventgroup) (dest : Addr) (send : Bool := true) : Stack :=
@@ -523,12 +525,12 @@ def stopSubscribeEventgroup (s : Stack) (g : Eventgroup) (dest : Addr) (send : B
 
 def subscriberStart (s : Stack) : Stack :=
   if s.alive then s else
-  let r := ({ s with alive := true }).createTask .subscribe
+  let r := ({ s with alive := true, subLost := false }).createTask .subscribe
   { r.1 with subTask := some r.2 }
 
 def subscriberStop (s : Stack) (sendStop : Bool) : Stack :=
   if !s.alive then s else
-  let s := { s with alive := false }
+  let s := { s with alive := false, subLost := !sendStop }
   let s := match s.subTask with
     | some tid => { s.cancelTask (.subscribe, tid) with subTask := none }
     | none => s
